@@ -158,6 +158,8 @@ fn gen_int(lo: &BigInt, hi: &BigInt, mode: u64, rng: &mut Rng) -> BigInt {
         0 => lo.clone(),
         1 => hi.clone(),
         2 => clamp(BigInt::from(rng.below(2))),
+        // the range-check bound: where hints and limb splits change behaviour (clamped into narrower types)
+        3 => clamp((BigInt::one() << 128) - BigInt::from(rng.below(2)) + BigInt::from(rng.below(2))),
         _ => match rng.below(8) {
             0 => clamp(lo + BigInt::from(rng.below(3))),
             1 => clamp(hi - BigInt::from(rng.below(3))),
@@ -626,13 +628,13 @@ fn run_program(
                 stats.functions_runnable += 1;
             }
             let mut rng = Rng(seed ^ fnv(&fname) ^ fnv(name));
-            let n_vectors = if shapes.is_empty() { 1 } else if mutant { 3 } else if thorough { 40 } else { 5 };
+            let n_vectors = if shapes.is_empty() { 1 } else if mutant { 3 } else if thorough { 40 } else { 6 };
             for v in 0..n_vectors {
                 let mut args = vec![];
                 let mut shown = vec![];
                 for s in &shapes {
                     // vector 0: all minima, 1: all maxima, 2: zero/one, then per-parameter mixes
-                    let mode = if v < 3 { v as u64 } else { rng.below(6) };
+                    let mode = if v < 4 { v as u64 } else { rng.below(6) };
                     gen_args(s, mode, &mut rng, &mut args, &mut shown);
                 }
                 let shown = shown.join(", ");
@@ -864,7 +866,7 @@ fn run_selfchecks_nogas(name: &str, crate_prefix: &str, program: &Program, thoro
             let mut args = vec![];
             let mut shown = vec![];
             for s in &shapes {
-                let mode = if v < 3 { v as u64 } else { rng.below(6) };
+                let mode = if v < 4 { v as u64 } else { rng.below(6) };
                 gen_args(s, mode, &mut rng, &mut args, &mut shown);
             }
             let shown = shown.join(", ");
